@@ -207,7 +207,7 @@ func ruleWhoMayCancel(c *Ctx, r *R, anchor, wrapper, cancelField string, winnerM
 				for _, g := range guardsOf(b) {
 					if v, val := g.boolVal(); val {
 						if cc, ok := v.(*ssa.Call); ok {
-							if f := cc.Call.StaticCallee(); f != nil && f.Name() == "CompareAndSwapUint32" {
+							if nm, _, ne0, ok := atomicOp(cc); ok && !ne0 && nm == "CompareAndSwapUint32" {
 								won = true
 							}
 						}
